@@ -255,10 +255,13 @@ def vmap(v, f):
         return f(v)
     if isinstance(v, VStruct):
         return VStruct([vmap(x, f) for x in v.f], v.ty)
+    # NOTE: leaves are visited in exactly the order of flatten() (callers zip the two)
     if isinstance(v, VEnum):
-        return VEnum(v.info, f(v.idx), {k: tuple(vmap(x, f) for x in p) for k, p in v.pay.items()})
+        idx = f(v.idx)
+        return VEnum(v.info, idx, {k: tuple(vmap(x, f) for x in v.pay[k]) for k in sorted(v.pay)})
     if isinstance(v, VSeq):
-        return VSeq([vmap(x, f) for x in v.elems], f(v.len))
+        ln = f(v.len)
+        return VSeq([vmap(x, f) for x in v.elems], ln)
     if isinstance(v, VArr):
         return VArr([vmap(x, f) for x in v.elems])
     if isinstance(v, VStr):
